@@ -247,6 +247,7 @@ func CanonKey(key bytemap.ByteMap) string {
 
 // QueryOpts tunes one query execution.
 type QueryOpts struct {
+	IsSub   bool // run as a subquery (the field list is replaced by _points)
 	Mem     bool
 	Ctx     context.Context
 	OnRow   func(i int, r RefRow) // called inside the row callback (may block / insert)
@@ -313,7 +314,7 @@ func RunSource(src core.FlatRowSource, o QueryOpts) (*Result, error) {
 
 // Query plans and runs a query.
 func (d *DB) Query(sql string, o QueryOpts) (*Result, error) {
-	src, err := d.Z.Query(sql, false, nil, o.Mem)
+	src, err := d.Z.Query(sql, o.IsSub, nil, o.Mem)
 	if err != nil {
 		return nil, err
 	}
